@@ -481,10 +481,11 @@ class MultiportILVTMemory(BaseMultiportMemory):
         else:
             raise ValueError("Unsupported memory type.")
 
+        # the initial contents live in bank 0, which is what a zero-initialised ILVT points to
         m.submodules.ilvt = ilvt = self.memory_type(
             shape=shape,
             depth=self.depth,
-            init=self.init,
+            init=[],
             src_loc_at=self.src_loc + 1,
         )
 
